@@ -323,6 +323,8 @@ def run_harness(fn, name=None, cfg=None, solver_timeout_ms=10000, max_paths=2000
         bad = label_bad.get(label, 0)
         if z3.is_true(goal):
             ob.status, ob.solver = "proved", "simplifier"
+        elif os.environ.get("PYVC_NOSOLVE"):
+            ob.status, ob.solver = "unknown", "not attempted (PYVC_NOSOLVE exploration mode)"
         elif bad >= 3:
             # this obligation already failed on three other paths: do not spend more solver time on it
             ob.status, ob.solver = "unknown", "skipped (same obligation already refuted/undecided on 3 paths)"
